@@ -94,11 +94,11 @@ CHECKS = {
             'Trusted: Lean kernel, axioms propext/Classical.choice/Quot.sound, the harness. String matching (email package, re) is an oracle of the model; messages are plain ASCII so that "contains" is unambiguous.',
             'DESIGN.md section 6 C13'),
     'C18': ('Lean 4 round-trip theorems (quoted strings, modified UTF-7 for all Unicode scalar values) + L1 differential correspondence + spelling-equivalence monitor on the wire',
-            'C18_roundtrip_quoted (parse(ser v ++ rest) = (v, rest)), C18_roundtrip_number, C18_modutf7 (decode(encode s) = s for every list of scalar values), C18_encode_ascii, C18_framing (whatever the {n+} literals contain, the reader takes exactly the command), C18_astring_spelling (the atom, quoted and {n+} spellings of any value parse to the same value and rest, or are all refused over the length limit), C18_zone_roundtrip / C18_zone_canonical (the zone of a date-time: written and read back as the same offset; an accepted zone other than -0000 is how its offset is written), C18_seqset_roundtrip (SequenceSet.parse reads back what __bytes__ writes and leaves exactly what follows) are proved in Lean. '
+            'C18_roundtrip_quoted (parse(ser v ++ rest) = (v, rest)), C18_roundtrip_number, C18_modutf7 (decode(encode s) = s for every list of scalar values), C18_encode_ascii, C18_framing (whatever the {n+} literals contain, the reader takes exactly the command), C18_astring_spelling (the atom, quoted and {n+} spellings of any value parse to the same value and rest, or are all refused over the length limit), C18_zone_roundtrip / C18_zone_canonical (the zone of a date-time: written and read back as the same offset; an accepted zone other than -0000 is how its offset is written), C18_seqset_roundtrip (SequenceSet.parse reads back what __bytes__ writes and leaves exactly what follows), C18_flag_norm_idem / C18_flag_case_insensitive / C18_flag_keyword (the value a flag is known by: stable, the same for every letter case of a system flag, the bytes themselves for a keyword) are proved in Lean. '
             'Tie: IMAPConnection.readline vs Framing.readCmd on hostile streams; AString.parse vs AStr.parse on spelled values and junk under both limits; DateTime zones vs Zone.fmt/Zone.parse; SequenceSet.parse vs SeqText.parse on generated sets and junk; QuotedString/String.build/modutf7_encode/decode '
             'vs the Wire and ModUtf7 models on hostile values. Monitors: round trips of literals, astrings, numbers, sequence sets, flags, date-times through the real parsers; an independent RFC 3501 5.1.3 encoder; whole command '
             'programs replayed under random spellings (atom/quoted/{n}/{n+}, command-word case) must answer and leave state identically; LIST reports names that decode to the created names.',
-            'Trusted: as C13. The lenient utf-7 decoder of Python on non-canonical input is not modelled (one-sided correspondence). Flags and the date part of a date-time have no Lean model (monitored only).',
+            'Trusted: as C13. The lenient utf-7 decoder of Python on non-canonical input is not modelled (one-sided correspondence). The date part of a date-time has no Lean model (monitored only).',
             'DESIGN.md section 6 C18'),
     'C07': ('Lean 4 theorem that every serialised response shape is accepted by an independent strict recogniser + twin-recogniser correspondence + output monitor',
             'C07_wellformed (every line built from atoms, String.build values and nested groups is accepted by Grammar.wf, by mutual induction with a fuel-independence lemma), C07_build_safe, C07_quoted_escape, C18_encode_ascii '
@@ -130,6 +130,7 @@ CHECKS = {
             'C14_conservation (a message being moved is in source or destination in every reachable state, any cancellation point, other sessions active), C14_move_loses_as_found (decide), C14_multiappend_atomic_full_false/_partial (known finding D21) '
             'are proved. Tie: single-message MOVE runs on the real dict backend, parked at every lock acquisition, replayed as Faults labels and (in source, in destination) compared. Monitor: MOVE/COPY/EXPUNGE/APPEND(1-3) cut at EVERY park point by '
             'cancellation and by an exception from the n-th storage call, with a second session interleaved; probe dumps at every park point and at the end (conservation, exactly-one after OK, NO/BAD changes nothing, multi-APPEND atomicity).',
+            'C14_client_cancel / C14_append_all (model AppendCancel): a multi-message APPEND the client calls off with an empty literal - after no message, one or many - is answered NO and stores nothing; every such command of the client-cancel family is diffed against the model. '
             'Trusted: as C20. The maildir leg kills a child process at every filesystem-operation boundary of MOVE/COPY histories (C15 machinery, conservation judged); uncontended cancellation k loop turns into each command; multi-message MOVE is monitored, the model is per message. Known finding D21.',
             'DESIGN.md section 6 C14'),
     'C15': ('Lean 4 theorems over an abstract maildir filesystem (every prefix of every command\'s system calls, any history) + exhaustive crash-point enumeration in a child process',
